@@ -197,6 +197,42 @@ def finish(prop_id, tier, seed, mod, plan, reports, t0, relock, repo_root):
         violations.append((n, path, reproduced))
 
     undecided = sorted(n for n, s in status.items() if s == "unknown")
+    # An obligation that discharged on the unchanged tree (it is in the lock) and is now undecided:
+    # the solver gives no counterexample, but the property-level native falsifier may.  A native
+    # reproduction is a real failing input, so it is reported as a violation (named after the
+    # obligation that stopped discharging); without one the obligation stays undecided.
+    replay_prog = getattr(mod, "REPLAY", None)
+    if replay_prog and not relock:
+        for n in list(undecided):
+            if n not in locked:
+                continue
+            it = groups[n]
+            bad = [i for i in it if i["status"] == "unknown"][0]
+            rep = next(r for r in reports if any(o is bad for o in r["obligations"]))
+            path = os.path.join(VERIF, "replays", prop_id + "__" + re.sub(r"[^A-Za-z0-9_.#-]+", "_", n) + ".json")
+            rec = {"property": prop_id, "obligation": n, "kind": bad["kind"], "backend": bad["backend"],
+                   "function": rep.get("target"), "file": rep.get("file"), "span": rep.get("span"),
+                   "line": bad.get("lineno"), "counter_model": None, "was_in_lock": True,
+                   "solver_note": "obligation discharged on the unchanged tree; the solvers now return unknown",
+                   "native": None, "contract": rep.get("contract")}
+            with open(path, "w") as f:
+                json.dump(rec, f, indent=1, default=str)
+            try:
+                p = subprocess.run([NATIVE_PY, os.path.join(VERIF, replay_prog), path, repo_root],
+                                   capture_output=True, text=True, timeout=900, cwd=repo_root,
+                                   env=dict(os.environ, PYTHONPATH=repo_root))
+                rec["native"] = {"cmd": f"{NATIVE_PY} {replay_prog}", "exit": p.returncode,
+                                 "stdout": p.stdout[-4000:], "stderr": p.stderr[-2000:]}
+                reproduced = p.returncode == 1 and "REPRODUCED" in p.stdout
+            except Exception as e:       # pragma: no cover
+                rec["native"] = {"error": repr(e)}
+                reproduced = False
+            rec["reproduced_natively"] = reproduced
+            with open(path, "w") as f:
+                json.dump(rec, f, indent=1, default=str)
+            if reproduced:
+                undecided.remove(n)
+                violations.append((n, path, True))
     n_obs = len(obs)
     n_dis = sum(1 for o in obs if o["status"] == "discharged")
     stats = {}
